@@ -23,8 +23,12 @@
 (* property layer                                                          *)
 (*   RoundTrip   done /\ no fault planted => tree = model      (C10)       *)
 (*   WriterFix   Parse(Write(Parse(x))) = Parse(x)              (C10)      *)
-(*   DiagAtFault every diagnostic carries the 1-based source line of the   *)
-(*               planted fault (blocks whose opening token stands alone)   *)
+(*   DiagAtFault every diagnostic (line, kind) is one the text gives cause *)
+(*               for: the planted fault at the 1-based source line that    *)
+(*               carries it, or a later @param / tag line blamed for       *)
+(*               standing where it is no longer expected (history variable *)
+(*               `expected`, operator Permits; blocks whose opening token  *)
+(*               stands alone on its line)                       (C11)     *)
 (*   IgnoredNotHalfApplied  no annotation of a malformed annotation field  *)
 (*               reaches the tree                                (C11)     *)
 (*                                                                         *)
@@ -62,11 +66,19 @@ AnnSeq == <<"a", "b", "c", "d">>
 Chunk(from, len) == SubSeq(AnnSeq, from + 1, from + len)
 NoAnnForms == {"section", "action", "actionw"}
 ValueTags == {"since", "deprecated", "stability"}
+DepAnnTags == {"attributes", "renameto"}      \* DEPRECATED_GI_ANN_TAGS: "Attributes:", "Rename to:", "Transfer:", ...
 ParamNames == <<"p1", "p2", "p3">>
-AnnFaults == {"unbal", "dbl", "empty", "stray", "kv", "unknown"}
+AnnFaults == {"unbal", "dbl", "empty", "stray", "kv", "unknown", "depann"}   \* depann: deprecated spelling (in-out) / (attribute k v)
 FailingAnnFaults == {"unbal", "dbl", "empty", "stray"}     \* _parse_annotations returns success=False
 Falsy(d) == d = <<>> \/ d = <<E>>                    \* Python: `not description`
 RangeOf(s) == {s[i] : i \in 1..Len(s)}
+\* deviations of the code from the property that have been triaged (constant Known):
+\*   "<name>"          the implementation layer shows the deviation AND the invariants tolerate it (code as it is);
+\*   "witness_<name>"  the implementation layer shows it, the invariants do not (TLC exhibits the counterexample);
+\*   neither           the implementation layer behaves as the repaired code would.
+Shows(name) == name \in Known \/ ("witness_" \o name) \in Known
+LosesPos == Shows("validate_position_lost_on_continuation")
+WritesActionName == Shows("writer_action_identifier")
 Track == MaxFaults > 0         \* line numbers are only followed when faults (hence diagnostics) are modelled
 
 Line0 == [k |-> "text", form |-> "", name |-> "", ind |-> 0, colon |-> FALSE, anns |-> <<>>,
@@ -77,12 +89,14 @@ EmptyLine == [Line0 EXCEPT !.k = "empty"]
 (* ---------------- implementation-shaped layer: the parser --------------- *)
 
 PS0 == [cb |-> FALSE, idwarned |-> FALSE, in_part |-> "none", pind |-> 0, cur |-> <<"none", 0>>,
-        rseen |-> FALSE, name |-> "", anns |-> <<>>, apos |-> 0, unk |-> FALSE,
+        rseen |-> FALSE, name |-> "", anns |-> <<>>, apos |-> 0, unk |-> FALSE, upos |-> 0,
         params |-> <<>>, desc |-> <<>>, tags |-> <<>>, lineno |-> StartLine, diags |-> <<>>]
 
 APos(s) == IF Track THEN s.lineno ELSE 0       \* GtkDocAnnotations(position=position)
-NewParam(nm) == [name |-> nm, anns |-> <<>>, apos |-> 0, unk |-> FALSE, desc |-> <<>>]
-NewTag(nm)   == [name |-> nm, anns |-> <<>>, apos |-> 0, unk |-> FALSE, val |-> "", desc |-> <<>>]
+\* apos: line of the annotations object (0 = None); upos: line on which an unknown annotation stands (0 = none)
+NewParam(nm) == [name |-> nm, anns |-> <<>>, apos |-> 0, unk |-> FALSE, upos |-> 0, desc |-> <<>>]
+NewTag(nm)   == [name |-> nm, anns |-> <<>>, apos |-> 0, unk |-> FALSE, upos |-> 0, val |-> "", desc |-> <<>>]
+UPos(s, unk) == IF unk THEN APos(s) ELSE 0
 
 AddDiags(s, ks) == [s EXCEPT !.diags = @ \o [i \in 1..Len(ks) |-> [line |-> s.lineno, kind |-> ks[i]]]]
 
@@ -100,7 +114,7 @@ ParseAnns(l, existing) ==
   THEN [ok |-> FALSE, anns |-> <<>>, changed |-> FALSE, d |-> <<l.af>>, unk |-> FALSE]
   ELSE LET seen == l.anns \o (IF l.anns = <<>> /\ l.t = "paren" THEN <<"zz">> ELSE <<>>)
        IN [ok |-> TRUE, anns |-> existing \o seen, changed |-> seen # <<>>,
-           d |-> IF l.af = "kv" THEN <<"kv">> ELSE <<>>, unk |-> l.af = "unknown"]
+           d |-> IF l.af \in {"kv", "depann"} THEN <<l.af>> ELSE <<>>, unk |-> l.af = "unknown"]
 
 \* _parse_fields: annotations, then the description field with its (optional) leading colon
 PF(s, l, existing) ==
@@ -118,7 +132,7 @@ PIdent(s, l) ==
           THEN LET r == ParseAnns(l, <<>>)
                    s2 == AddDiags(s1, r.d)
                IN IF r.ok
-                  THEN AddDiags([s2 EXCEPT !.anns = r.anns, !.apos = APos(s), !.unk = r.unk],
+                  THEN AddDiags([s2 EXCEPT !.anns = r.anns, !.apos = APos(s), !.unk = r.unk, !.upos = UPos(s, r.unk)],
                                 IF ~l.colon /\ r.anns # <<>> THEN <<"nocolon">> ELSE <<>>)
                   ELSE s2
           ELSE s1
@@ -133,7 +147,7 @@ PParam(s, l) ==
               f == PF(s2, l, <<>>)
               s3 == IF HasFields(l) THEN f.s ELSE s2
               tag == IF HasFields(l) /\ f.ok
-                     THEN [NewTag("returns") EXCEPT !.anns = f.anns, !.apos = APos(s), !.unk = f.unk, !.desc = f.desc]
+                     THEN [NewTag("returns") EXCEPT !.anns = f.anns, !.apos = APos(s), !.unk = f.unk, !.upos = UPos(s, f.unk), !.desc = f.desc]
                      ELSE NewTag("returns")
               tags2 == Put(s3.tags, tag)
           IN [s3 EXCEPT !.tags = tags2, !.cur = <<"tag", IndexOf(tags2, "returns")>>]
@@ -141,7 +155,7 @@ PParam(s, l) ==
               f == PF(s2, l, <<>>)
               s3 == IF HasFields(l) THEN f.s ELSE s2
               par == IF HasFields(l) /\ f.ok
-                     THEN [NewParam(l.name) EXCEPT !.anns = f.anns, !.apos = APos(s), !.unk = f.unk, !.desc = f.desc]
+                     THEN [NewParam(l.name) EXCEPT !.anns = f.anns, !.apos = APos(s), !.unk = f.unk, !.upos = UPos(s, f.unk), !.desc = f.desc]
                      ELSE NewParam(l.name)
               params2 == Put(s3.params, par)
           IN [s3 EXCEPT !.params = params2, !.cur = <<"param", IndexOf(params2, l.name)>>]
@@ -155,9 +169,11 @@ TagName(l) == IF l.k = "tag" THEN l.name ELSE "since"        \* a tag-like text 
 PTag(s, l) ==
   LET nm == TagName(l)
       s1 == [s EXCEPT !.pind = l.ind]
-  IN IF nm = "attributes"
+  IN IF nm \in DepAnnTags
      THEN \* deprecated tag-style annotation: warned, folded into the identifier annotations, `continue`
-          AddDiags(s1, <<"deprecated_tag">> \o (IF l.af = "attrs" THEN <<"attrs">> ELSE <<>>))
+          \* (a malformed "Attributes:" is ignored; "Rename to:" etc. become one more identifier annotation "dt")
+          LET s2 == AddDiags(s1, <<"deprecated_tag">> \o (IF l.af = "attrs" THEN <<"attrs">> ELSE <<>>))
+          IN IF nm = "renameto" THEN [s2 EXCEPT !.anns = Append(@, "dt")] ELSE s2
      ELSE
      LET totags == \/ s1.in_part = "desc"
                    \/ (s1.in_part = "params" /\ Falsy(s1.desc))
@@ -169,7 +185,7 @@ PTag(s, l) ==
                  f == PF(s3, l, <<>>)
                  s4 == IF HasFields(l) THEN f.s ELSE s3
                  tag == IF HasFields(l) /\ f.ok
-                        THEN [NewTag("returns") EXCEPT !.anns = f.anns, !.apos = APos(s), !.unk = f.unk, !.desc = f.desc]
+                        THEN [NewTag("returns") EXCEPT !.anns = f.anns, !.apos = APos(s), !.unk = f.unk, !.upos = UPos(s, f.unk), !.desc = f.desc]
                         ELSE NewTag("returns")
                  tags2 == Put(s4.tags, tag)
              IN [s4 EXCEPT !.tags = tags2, !.cur = <<"tag", IndexOf(tags2, "returns")>>]
@@ -205,14 +221,16 @@ PCont(s, l) ==
            r == ParseAnns(l, s.anns)                 \* annotations.copy(): the position is lost
            s1 == IF try THEN AddDiags(s, r.d) ELSE s
        IN IF try /\ r.ok /\ r.changed
-          THEN [s1 EXCEPT !.anns = r.anns, !.apos = 0, !.unk = @ \/ r.unk]
+          THEN [s1 EXCEPT !.anns = r.anns, !.apos = IF LosesPos THEN 0 ELSE @, !.unk = @ \/ r.unk,
+                          !.upos = IF r.unk THEN APos(s) ELSE @]
           ELSE [s1 EXCEPT !.desc = App(@, Img(l))]
   ELSE LET part == CurPart(s)
            try == ContTriesAnns(s, l)
            f == PF(s, l, part.anns)
            s1 == IF try THEN f.s ELSE s
        IN IF try /\ f.ok /\ f.changed
-          THEN SetCur(s1, [part EXCEPT !.anns = f.anns, !.apos = 0, !.unk = @ \/ f.unk, !.desc = f.desc])
+          THEN SetCur(s1, [part EXCEPT !.anns = f.anns, !.apos = IF LosesPos THEN 0 ELSE @, !.unk = @ \/ f.unk,
+                                       !.upos = IF f.unk THEN APos(s) ELSE @, !.desc = f.desc])
           ELSE SetCur(s1, [part EXCEPT !.desc = App(@, Img(l))])
 
 \* which branch of the loop body a line takes in state s (s already has lineno advanced)
@@ -248,12 +266,13 @@ CleanPartDesc(d) == IF Falsy(d) \/ AllEmpty(d) THEN <<>>                        
                     ELSE IF d[1] = E THEN StripTrail(d)                                   \* .rstrip()
                     ELSE ZeroFirst(StripTrail(d))                                         \* .strip()
 
-ValidateDiags(s) ==       \* GtkDocAnnotatable.validate: position = annotations.position (0 = None)
-  LET parts == <<[unk |-> s.unk, apos |-> s.apos]>>
-                 \o [i \in 1..Len(s.params) |-> [unk |-> s.params[i].unk, apos |-> s.params[i].apos]]
-                 \o [i \in 1..Len(s.tags) |-> [unk |-> s.tags[i].unk, apos |-> s.tags[i].apos]]
+ValidateDiags(s) ==       \* GtkDocAnnotatable.validate: position = annotations.position (0 = None) as the code is;
+                          \* the line on which the annotation stands as it should be
+  LET parts == <<[unk |-> s.unk, apos |-> s.apos, upos |-> s.upos]>>
+                 \o [i \in 1..Len(s.params) |-> [unk |-> s.params[i].unk, apos |-> s.params[i].apos, upos |-> s.params[i].upos]]
+                 \o [i \in 1..Len(s.tags) |-> [unk |-> s.tags[i].unk, apos |-> s.tags[i].apos, upos |-> s.tags[i].upos]]
       sel == SelectSeq(parts, LAMBDA p : p.unk)
-  IN [i \in 1..Len(sel) |-> [line |-> sel[i].apos, kind |-> "unknown"]]
+  IN [i \in 1..Len(sel) |-> [line |-> IF LosesPos THEN sel[i].apos ELSE sel[i].upos, kind |-> "unknown"]]
 
 Fin(s) ==
   IF ~s.cb THEN s
@@ -298,7 +317,8 @@ RECURSIVE Flat(_)
 Flat(ss) == IF ss = <<>> THEN <<>> ELSE Head(ss) \o Flat(Tail(ss))
 Write(tr) ==
   LET id == IF tr.name \in {"section"} THEN [Line0 EXCEPT !.k = "ident", !.form = tr.name]
-            ELSE IF tr.name = "action" THEN [Line0 EXCEPT !.k = "ident", !.form = "actionw"]   \* writes block.name = 'ACTION:Class:group.action'
+            ELSE IF tr.name = "action"       \* as the code is: writes block.name = 'ACTION:Class:group.action' (not an identifier)
+                 THEN [Line0 EXCEPT !.k = "ident", !.form = IF WritesActionName THEN "actionw" ELSE "action"]
             ELSE [Line0 EXCEPT !.k = "ident", !.form = tr.name, !.colon = TRUE, !.anns = tr.anns]
   IN <<id>> \o Flat([i \in 1..Len(tr.params) |-> WParam(tr.params[i])])
           \o (IF tr.desc # <<>> THEN <<EmptyLine>> \o TextLines(tr.desc) ELSE <<>>)
@@ -339,7 +359,8 @@ Step(l, gg, m, fk) ==
 GenIdent(gg, m) ==
   { Step([Line0 EXCEPT !.k = "ident", !.form = x[1], !.ind = x[2], !.colon = x[3], !.anns = Chunk(0, x[5]),
                        !.acolon = x[4], !.af = x[6], !.pre = x[7]],
-         Ign(GPre(GAf([gg EXCEPT !.ph = "ident", !.na = x[5], !.ref = x[2], !.nc = 0], x[6]), x[7]), x[6], Chunk(0, x[5]), "id"),
+         Ign(GPre(GAf(IF x[5] > 0 /\ ~x[3] THEN Planted([gg EXCEPT !.ph = "ident", !.na = x[5], !.ref = x[2], !.nc = 0])
+                      ELSE [gg EXCEPT !.ph = "ident", !.na = x[5], !.ref = x[2], !.nc = 0], x[6]), x[7]), x[6], Chunk(0, x[5]), "id"),
          [m EXCEPT !.name = x[1], !.anns = Chunk(0, x[5])],
          IF x[5] > 0 /\ ~x[3] THEN "nocolon" ELSE "") :
     x \in { y \in Forms \X Indents \X BOOLEAN \X BOOLEAN \X (0..MaxIdAnns) \X AFDom \X PreDom :
@@ -487,8 +508,14 @@ GenAttrs(gg, m) ==          \* fault "attrs": malformed deprecated "Attributes:"
   ELSE {}
 
 \* generator classes (one per kind of line the grammar allows) and the phases in which each may follow
+GenDepTag(gg, m) ==         \* fault "deptag": a (well-formed) deprecated tag-style annotation, e.g. "Rename to: x"
+  IF MayPlant(gg, "deptag")
+  THEN { Step([Line0 EXCEPT !.k = "tag", !.name = "renameto", !.ind = i], Planted(gg), m, "deptag") :
+         i \in {j \in Indents : j <= gg.ref} }
+  ELSE {}
+
 GenClasses == {"ident", "noident", "idcont", "param", "lateparam", "partcont", "parttext", "sep", "tagempty",
-               "descempty", "desctext", "tag", "attrs"}
+               "descempty", "desctext", "tag", "attrs", "deptag"}
 GenClass(c, gg, m) ==
   CASE c = "ident"     -> GenIdent(gg, m)
     [] c = "noident"   -> GenNoIdent(gg, m)
@@ -503,12 +530,13 @@ GenClass(c, gg, m) ==
     [] c = "desctext"  -> GenDescText(gg, m)
     [] c = "tag"       -> GenTag(gg, m)
     [] c = "attrs"     -> GenAttrs(gg, m)
+    [] c = "deptag"    -> GenDepTag(gg, m)
 ClassesAt(ph) ==
   CASE ph = "open"  -> {"ident", "noident"}
-    [] ph = "ident" -> {"idcont", "param", "sep", "tag", "attrs"}
-    [] ph = "param" -> {"partcont", "parttext", "param", "sep", "tag", "attrs"}
-    [] ph = "desc"  -> {"descempty", "desctext", "tag", "lateparam", "attrs"}
-    [] ph = "tag"   -> {"partcont", "parttext", "tagempty", "tag", "lateparam", "attrs"}
+    [] ph = "ident" -> {"idcont", "param", "sep", "tag", "attrs", "deptag"}
+    [] ph = "param" -> {"partcont", "parttext", "param", "sep", "tag", "attrs", "deptag"}
+    [] ph = "desc"  -> {"descempty", "desctext", "tag", "lateparam", "attrs", "deptag"}
+    [] ph = "tag"   -> {"partcont", "parttext", "tagempty", "tag", "lateparam", "attrs", "deptag"}
     [] OTHER -> {}
 GenNext(gg, m) == UNION { GenClass(c, gg, m) : c \in ClassesAt(gg.ph) }
 
@@ -516,6 +544,22 @@ GenNext(gg, m) == UNION { GenClass(c, gg, m) : c \in ClassesAt(gg.ph) }
 (* ---------------- behaviours ------------------------------------------- *)
 \* source line (1-based) on which the k-th emitted line stands
 SrcLine(gg, k) == StartLine + k - (IF gg.alone THEN 0 ELSE 1)
+
+\* property-level bookkeeping: which diagnostics (source line, kind) the text gives cause for.
+\*  - the planted fault itself, at the line that carries it (a malformed "Attributes:" tag is also a deprecated tag);
+\*  - once a fault has been planted, later parameter / tag lines may stand where the parser no longer expects
+\*    them, and a description line beginning with a parenthesis may read as annotations (the fault changed what
+\*    the preceding lines mean): the offending text of such a diagnostic is that later line itself.
+FaultDiagKinds(fk) == IF fk = "attrs" THEN {"attrs", "deprecated_tag"}
+                      ELSE IF fk = "deptag" THEN {"deprecated_tag"}
+                      ELSE IF fk = "pre" THEN {"pretext"} ELSE {fk}
+Conseq(l) == IF l.k = "tag" THEN {"tagunexpected"}
+             ELSE IF l.k = "param" THEN {"paramlate"}
+             ELSE IF l.k = "text" /\ l.t = "paren" /\ l.anns = <<>>
+                  THEN {"nocolon", "unknown"}   \* text beginning with a parenthesis, read as annotations once the part lost its description
+             ELSE {}
+Permits(src, l, fk, nf) == {<<src, kd>> : kd \in (IF fk # "" THEN FaultDiagKinds(fk) ELSE {})
+                                                 \cup (IF nf > 0 THEN Conseq(l) ELSE {})}
 
 Opens == {"alone"} \cup (IF MaxFaults > 0 THEN FaultKinds \cap {"codebefore", "opentext", "oneline"} ELSE {})
 Init ==
@@ -525,13 +569,13 @@ Init ==
        /\ g = [G0 EXCEPT !.alone = o \notin {"opentext", "oneline"},
                          !.nf = IF o \in {"codebefore", "oneline"} THEN 1 ELSE 0]   \* "opentext" is the rider, not a counted fault
        /\ ps = IF o = "alone" THEN PS0 ELSE AddDiags(PS0, <<o>>)           \* Position(filename, lineno)
-       /\ expected = IF o = "alone" THEN {} ELSE {StartLine}
+       /\ expected = IF o = "alone" THEN {} ELSE {<<StartLine, o>>}
 
 EmitX(x) ==
   /\ ps' = PL(ps, x.line)
   /\ g' = x.g /\ model' = x.m
   /\ lines' = IF KeepLines THEN Append(lines, x.line) ELSE lines
-  /\ expected' = IF x.fk # "" THEN expected \cup {SrcLine(g, g.ln + 1)} ELSE expected
+  /\ expected' = expected \cup Permits(SrcLine(g, g.ln + 1), x.line, x.fk, x.g.nf)
   /\ UNCHANGED pc
 \* one action per branch of the loop body (used by SpecByClass: TLC reports coverage per line class)
 Emit(b) == pc = "gen" /\ \E x \in GenNext(g, model) : Branch(Pre(ps, x.line), x.line) = b /\ EmitX(x)
@@ -554,7 +598,7 @@ Finish ==
            s1 == Fin(ps)
        IN /\ ps' = IF c = "alone" THEN s1
                    ELSE [s1 EXCEPT !.diags = <<[line |-> last, kind |-> "codeafter"]>> \o @]
-          /\ expected' = IF c = "alone" THEN expected ELSE expected \cup {last}
+          /\ expected' = IF c = "alone" THEN expected ELSE expected \cup {<<last, "codeafter">>}
           /\ g' = IF c = "alone" THEN g ELSE Planted(g)
   /\ UNCHANGED <<model, lines>>
 
@@ -577,11 +621,11 @@ KnownDeviation(name) == name \in Known
 WriterFix == (Done /\ WellFormed /\ ~(KnownDeviation("writer_action_identifier") /\ ps.name = "action"))
              => ParseAll(Write(Tree(ps))) = Tree(ps)
 
-\* C11: every diagnostic carries the 1-based source line of the offending text
-\*      (single planted fault, opening token alone on its line)
+\* C11: every diagnostic carries the 1-based source line of the offending text and is of a kind that text
+\*      gives cause for (single planted fault, opening token alone on its line)
 LostPosition == \E i \in 1..Len(ps.diags) : ps.diags[i].line = 0
 DiagAtFault == (Done /\ g.alone /\ g.nf <= 1 /\ ~(KnownDeviation("validate_position_lost_on_continuation") /\ LostPosition))
-               => \A i \in 1..Len(ps.diags) : ps.diags[i].line \in expected
+               => \A i \in 1..Len(ps.diags) : <<ps.diags[i].line, ps.diags[i].kind>> \in expected
 \* C11: a malformed annotation is ignored rather than half-applied
 PartAnns(tr, part) == IF part = "id" THEN RangeOf(tr.anns)
                       ELSE UNION ({RangeOf(tr.params[i].anns) : i \in {j \in 1..Len(tr.params) : tr.params[j].name = part}}
